@@ -81,6 +81,74 @@ def data2coord_small_scope(P, R, d2c):
     return True
 
 
+def centres_small_scope(P, R, dfb):
+    """C08.c (exhaustive within the scope): `_distances_from_bounds` is interpreted by E-VEC with the scaling helper and the curve kernel replaced by recorders: for
+    boxes inside, straddling and outside the extent (and a NaN box) the value scaled in dimension d is exactly (lb_d + ub_d) / 2 of that row, scaled against
+    (total.lb_d, total.ub_d) - widened by one when that range is empty - with 2**p cells, and the columns reach the curve kernel in dimension order."""
+    import veceval
+    nan = float('nan')
+    rows = [[1.0, 1.0, 3.0, 3.0], [-2.0, 1.0, 2.0, 3.0], [3.0, 3.0, 9.0, 9.0], [5.0, -5.0, 6.0, -1.0], [nan, nan, nan, nan], [0.0, 4.0, 0.0, 4.0]]
+    bad, total, undec = [], 0, None
+    for tb in ((0.0, 0.0, 4.0, 4.0), (-8.0, 2.0, 8.0, 2.0), (1.0, 1.0, 1.0, 1.0)):
+        for p_ in (1, 3):
+            total += 1
+            calls = []
+
+            def d2c(vals, rng, n_, calls=calls):
+                calls.append((list(vals), tuple(rng), n_))
+                return [len(calls) * 100 + k for k in range(len(vals))]
+            got_coords = []
+
+            def curve(pp, coords, got_coords=got_coords):
+                got_coords.append((pp, [list(r) for r in coords]))
+                return [0] * len(coords)
+            names = {}
+            for c in astq.own_calls(dfb):
+                r = P.resolve_call(dfb, c)
+                if r and r[0] == 'func' and isinstance(c.func, ast.Name):
+                    if r[1].name == '_data2coord':
+                        names[c.func.id] = d2c
+                    elif r[1].mod.name.endswith('hilbert_curve'):
+                        names[c.func.id] = curve
+            env = dict(zip(dfb.params, ([list(r) for r in rows], tb, p_)))
+            env.update(names)
+            ev = veceval.VecEval(P, dfb, env, len(rows))
+            ev.ncols = 4
+            try:
+                ev.block(dfb.node.body)
+            except veceval.Returned:
+                pass
+            except veceval.Unsupported as e_:
+                undec = str(e_)
+                break
+            except (IndexError, TypeError, ValueError, ZeroDivisionError) as e_:
+                bad.append({'total_bounds': tb, 'p': p_, 'error': f'{type(e_).__name__}: {e_}'})
+                continue
+            want = []
+            for d in (0, 1):
+                lo, hi = tb[d], tb[d + 2]
+                if lo == hi:
+                    hi = hi + 1
+                want.append(([(r[d] + r[d + 2]) / 2.0 for r in rows], (lo, hi), 2 ** p_))
+
+            def same(a, b):
+                return len(a) == len(b) and all((x != x and y != y) or x == y for x, y in zip(a, b))
+            ok = len(calls) == 2 and all(same(c[0], w[0]) and tuple(c[1]) == w[1] and c[2] == w[2] for c, w in zip(calls, want))
+            ok = ok and len(got_coords) == 1 and got_coords[0][0] == p_ and all(row == [100 + k, 200 + k] for k, row in enumerate(got_coords[0][1]))
+            if not ok:
+                bad.append({'total_bounds': tb, 'p': p_, 'scaled': [(c[0], c[1], c[2]) for c in calls][:2], 'wanted': want})
+        if undec:
+            break
+    if undec:
+        R.abstain('C08.c', dfb, None, f'_distances_from_bounds uses a construct the small-scope evaluator does not model ({undec})', construct='box centres small-scope')
+        return False
+    R.count('typed_ops', total)
+    R.exhaustive_sites['C08.c box centres: 6 boxes (inside / straddling / outside the extent, NaN, a point) x 3 extents (one empty on an axis, one a point) x p in {1, 3}'] = True
+    R.check(not bad, 'C08.c', dfb, None, f'the value located on the grid is the centre (lb + ub) / 2 of the element\'s own box, per dimension, against the range of that dimension ({total} extents)',
+            f'the value handed to the scaling helper is not the centre of the element\'s box on {len(bad)} of {total} extents, e.g. {bad[:1]}', construct='box centres small-scope', counterexamples=bad[:3])
+    return True
+
+
 def interleave_small_scope(P, R):
     """C08.k (exhaustive within the scope): the step that turns the per-dimension grid coordinates into ONE integer interleaves all p bits of every coordinate:
     bit b of coordinate j lands at position n*b + (n-1-j).  Interpreted by E-VEC for n = 2, p in {1, 2, 3, 8, 15, 16, 17, 20, 24, 31}: every one-hot coordinate
@@ -323,6 +391,7 @@ def run(P, R, tier):
     # ---------------------------------------------------------------- C08.d
     d2c_decided = data2coord_small_scope(P, R, d2c)
     interleave_small_scope(P, R)
+    centres_small_scope(P, R, dfb)
     C = cfgmod.build(d2c.node)
     rets = [s for s in walk_own(d2c.node) if isinstance(s, ast.Return)]
     resname = norm(rets[0].value) if rets else None
